@@ -246,6 +246,8 @@ pub fn with_session<R>(kcfg: Kcfg, policy: Option<Policy>, body: impl FnOnce(&Se
     let gate_ref = gate.as_ref().map(|g| g.attach_handle());
     let worker = std::thread::Builder::new()
         .name("pv-worker".into())
+        // recursive library code (remove_all) on deep trees must not be limited by our thread
+        .stack_size(512 << 20)
         .spawn(move || {
             let wg = match gate_ref {
                 Some(h) => h.attach_worker(kcfg),
